@@ -42,6 +42,8 @@ func CheckC15(tier string) int {
 	{
 		ctx := a.Ctx()
 		a.App.TIBCKeeper.ClientKeeper.RegisterRelayers(ctx, C, []string{relB.Addr.String(), onlyC.Addr.String()})
+		// a registry entry for a chain whose name merely starts with B's name
+		a.App.TIBCKeeper.ClientKeeper.RegisterRelayers(ctx, B+"2", []string{a.Accounts[3].Addr.String()})
 		a.CommitEmpty(w.Tick())
 		a.CommitEmpty(w.Tick())
 	}
@@ -55,10 +57,14 @@ func CheckC15(tier string) int {
 		return c.ClientStateFor(c.Height())
 	}
 	bscState := func() (exported.ClientState, exported.ConsensusState) {
-		h := clienttypes.NewHeight(0, 200)
-		hdr := bsctypes.Header{Height: h, Extra: make([]byte, 32+65), Difficulty: 2}
-		return &bsctypes.ClientState{Header: hdr, ChainId: 56, Epoch: 200, BlockInteval: 3, TrustingPeriod: 1000},
-			&bsctypes.ConsensusState{Timestamp: 1, Number: h, Root: make([]byte, 32)}
+		// a well-formed BSC client (the genesis header of the C17 generator: epoch block, three validators in the extra data)
+		hdr, vals := bscScenario{N: 3, Epoch: 4}.genesis()
+		var vb [][]byte
+		for _, v := range sortedAddrs(vals) {
+			vb = append(vb, v.Bytes())
+		}
+		return &bsctypes.ClientState{Header: hdr, ChainId: 56, Epoch: 4, BlockInteval: 3, Validators: vb, ContractAddress: make([]byte, 20), TrustingPeriod: 1 << 30},
+			&bsctypes.ConsensusState{Timestamp: hdr.Time, Number: hdr.Height, Root: hdr.Root}
 	}
 	mkCreate := func(name string, bsc bool, of string) func(w *world.World, authority string) sdk.Msg {
 		return func(w *world.World, authority string) sdk.Msg {
@@ -100,7 +106,7 @@ func CheckC15(tier string) int {
 	never := func(w *world.World) bool { return false }
 	ops := []c15op{
 		{"create-new-tendermint-client", mkCreate("nchainnnn", false, C), "create", not(has("nchainnnn"))},
-		{"create-new-bsc-client", mkCreate("bscchainb", true, ""), "create", nil},
+		{"create-new-bsc-client", mkCreate("bscchainb", true, ""), "create", not(has("bscchainb"))},
 		{"create-over-existing-client", mkCreate(B, false, C), "create", never},
 		{"create-bsc-over-existing-tendermint", mkCreate(B, true, ""), "create", never},
 		{"upgrade-existing-same-type", mkUpgrade(B, false, B), "upgrade", nil},
@@ -200,6 +206,9 @@ func CheckC15(tier string) int {
 					if len(samples) < 4 {
 						samples = append(samples, map[string]any{"state": n.path, "message": label})
 					}
+					if os.Getenv("VERIF_DEBUG") != "" && strings.Contains(op.label, os.Getenv("VERIF_DEBUG")) {
+						fmt.Fprintf(os.Stderr, "DEBUG %s by %s: err=%v diff=%d\n", op.label, au.name, err, len(diff))
+					}
 					effect := err == nil && len(diff) > 0
 					if err == nil {
 						effects++
@@ -253,7 +262,8 @@ func CheckC15(tier string) int {
 				for _, s := range []struct {
 					name string
 					acc  world.Account
-				}{{"registered-for-" + B + "-and-" + C, relB}, {"registered-for-" + C + "-only", onlyC}, {"unregistered", arb}} {
+				}{{"registered-for-" + B + "-and-" + C, relB}, {"registered-for-" + C + "-only", onlyC}, {"unregistered", arb},
+					{"registered-for-" + B + "2-only", a.Accounts[3]}} {
 					w.Mount(n.st)
 					ca := w.C(A)
 					of := w.C(target)
